@@ -61,6 +61,12 @@ func genCPUProgram(r *engine.Rand, sc *engine.Scenario, n int) {
 	for i, k := 0, r.Intn(5); i < k; i++ {
 		sc.Events = append(sc.Events, engine.Event{At: uint64(r.Intn(int(total) + 1)), K: "irq", A: uint16(r.Intn(5))})
 	}
+	if r.Chance(1, 4) {
+		// the user presses and releases keys while the program runs (no interrupt comes of it)
+		for i, k := 0, r.Range(1, 3); i < k; i++ {
+			sc.Events = append(sc.Events, engine.Event{At: uint64(r.Intn(int(total) + 1)), K: "key", A: uint16(r.Intn(8)), V: uint8(r.Intn(2))})
+		}
+	}
 	sortEvents(sc.Events)
 	sc.Cycles = total*3 + 64
 	if r.Chance(1, 2) {
